@@ -51,11 +51,12 @@ class Inst:
             self._fluid = flow_properties(shipped_table(self.table), self.pi)
         return self._fluid
 
-    def new(self):
+    def new(self, fresh_fluid: bool = False):
         from bluebonnet.flow import IdealReservoir, SinglePhaseReservoir  # noqa: PLC0415
 
         cls = IdealReservoir if self.kind == "ideal" else SinglePhaseReservoir
-        return cls(self.nx, self.pf, self.pi, self.fluid())
+        fluid = flow_properties(shipped_table(self.table), self.pi) if fresh_fluid else self.fluid()
+        return cls(self.nx, self.pf, self.pi, fluid)
 
     def sched(self, s: str, g: str):
         if s == "none":
@@ -195,8 +196,42 @@ def all_observations(kind: str) -> list[dict]:
 
 
 def reference(inst: Inst, obs: dict):
-    o = inst.new()
+    o = inst.new(fresh_fluid=True)
     res = None
     for c in canonical_program(obs):
         res = apply(inst, o, c)
-    return res
+    return res[0], res[1]
+
+
+def _reference_group(args):
+    """Runs in a freshly spawned interpreter: all observations rooted at ONE simulation (grid, schedule), each on a
+    fresh object with a fresh FlowProperties.  A fresh process per simulation means that not even module-level state
+    (memoised matrices, global caches) of another simulation can leak into the oracle."""
+    kind, variant, of = args
+    from .. import env as _env  # noqa: PLC0415
+
+    _env.import_bluebonnet()
+    inst = default_inst(kind, variant)
+    out = {}
+    import json  # noqa: PLC0415
+
+    for obs in all_observations(kind):
+        if obs["of"] == of:
+            out[json.dumps(obs, sort_keys=True)] = reference(inst, obs)
+    return out
+
+
+def reference_table(kind: str, variant: int) -> dict:
+    """abstract observation (json) -> (outcome, projection), computed in fresh interpreters (one per simulation)."""
+    import multiprocessing as mp  # noqa: PLC0415
+
+    roots = []
+    for obs in all_observations(kind):
+        if obs["of"] not in roots:
+            roots.append(obs["of"])
+    ctx = mp.get_context("spawn")
+    table = {}
+    with ctx.Pool(processes=min(8, len(roots)), maxtasksperchild=1) as pool:
+        for part in pool.map(_reference_group, [(kind, variant, of) for of in roots], chunksize=1):
+            table.update(part)
+    return table
